@@ -67,22 +67,32 @@ type Cfg struct {
 	PCap   int      `json:"pcap"`
 	Secp   [2]int64 `json:"secp"` // enabled (0/1), enable height
 	Ed     [2]int64 `json:"ed"`
+	// TransactionCache histories only (zero in the address histories)
+	Sm2    [2]int64 `json:"sm2,omitempty"`
+	NoneC  [2]int64 `json:"nonec,omitempty"` // crypto driver "none"
+	Strict int64    `json:"strict,omitempty"` // ForkTxChainIDStrict
+	BCheck int64    `json:"bcheck,omitempty"` // ForkBlockCheck
+	GPara  int64    `json:"gpara,omitempty"`  // ForkTxGroupPara
 }
 
 // Op is one query.
 type Op struct {
-	K     string `json:"k"` // check | dapp | pub | sign
-	A     int    `json:"a"` // address / pubkey / signed-tx number
+	K     string `json:"k"` // check | dapp | pub | sign ; tcheck | tsign | tfee | xcheck | xsign
+	A     int    `json:"a"` // address / pubkey / signed-tx number ; wrapper object (t*) / transaction number (x*)
 	D     int    `json:"d"` // pub: driver id (-1 = default)
 	H     int64  `json:"h"`
 	ViaTx bool   `json:"viatx,omitempty"`
+	Min   int64  `json:"min,omitempty"` // tcheck/xcheck/tfee: fee rate
+	Max   int64  `json:"max,omitempty"` // tcheck/xcheck: max fee
 }
 
 // Input is one case.
 type Input struct {
-	G   int  `json:"g"`
-	Cfg Cfg  `json:"cfg"`
-	Ops []Op `json:"ops"`
+	T    string `json:"t,omitempty"` // "" = address/pubkey/sign history, "tc" = TransactionCache history
+	G    int    `json:"g"`
+	Cfg  Cfg    `json:"cfg"`
+	Objs []int  `json:"objs,omitempty"` // tc: wrapper object i wraps transaction Objs[i]
+	Ops  []Op   `json:"ops"`
 }
 
 var drvNames = []string{"btc", "btcMultiSign", "eth", "utxo"}
@@ -292,6 +302,9 @@ func applyCfg(c Cfg, child bool) {
 	chainCfg.SetFork("ForkMultiSignAddress", c.FMulti)
 	chainCfg.SetFork("ForkBase58AddressCheck", c.FB58)
 	chainCfg.SetFork(address.ForkFormatAddressKey, c.FFmt)
+	chainCfg.SetFork(types.ForkTxChainIDStrict, c.Strict)
+	chainCfg.SetFork("ForkBlockCheck", c.BCheck)
+	chainCfg.SetFork("ForkTxGroupPara", c.GPara)
 	if c.API {
 		cryptocli.SetQueueAPI(mockAPI)
 	} else {
@@ -300,14 +313,15 @@ func applyCfg(c Cfg, child bool) {
 	names, _ := crypto.GetCryptoList()
 	var enabled []string
 	for _, n := range names {
-		if (n == "secp256k1" && c.Secp[0] == 0) || (n == "ed25519" && c.Ed[0] == 0) {
+		if (n == "secp256k1" && c.Secp[0] == 0) || (n == "ed25519" && c.Ed[0] == 0) ||
+			(n == "sm2" && c.Sm2[0] == 0) || (n == "none" && c.NoneC[0] == 0) {
 			continue
 		}
 		enabled = append(enabled, n)
 	}
 	sort.Strings(enabled)
 	crypto.Init(&crypto.Config{EnableTypes: enabled,
-		EnableHeight: map[string]int64{"secp256k1": c.Secp[1], "ed25519": c.Ed[1]}}, nil)
+		EnableHeight: map[string]int64{"secp256k1": c.Secp[1], "ed25519": c.Ed[1], "sm2": c.Sm2[1], "none": c.NoneC[1]}}, nil)
 	if !child {
 		resetCaches(c)
 	}
@@ -388,6 +402,7 @@ func opKey(o Op) string { return fmt.Sprintf("%s/%d/%d/%d", o.K, o.A, o.D, o.H) 
 
 func childMain() {
 	setup()
+	setupTc()
 	sc := bufio.NewScanner(os.Stdin)
 	sc.Buffer(make([]byte, 1<<20), 1<<20)
 	if !sc.Scan() {
@@ -398,12 +413,26 @@ func childMain() {
 		os.Exit(2)
 	}
 	applyCfg(in.Cfg, true)
-	b, _ := json.Marshal(runOp(in.Ops[0]))
+	var a answer
+	if in.T == "tc" {
+		objs := make([]*types.TransactionCache, len(in.Objs))
+		for i, t := range in.Objs {
+			objs[i] = types.NewTransactionCache(tcTxs[t])
+		}
+		a = runTop(in.Ops[0], objs)
+	} else {
+		a = runOp(in.Ops[0])
+	}
+	b, _ := json.Marshal(a)
 	fmt.Println(string(b))
 }
 
-func freshProcess(c Cfg, o Op) (answer, error) {
-	b, _ := json.Marshal(Input{Cfg: c, Ops: []Op{o}})
+func freshProcess(c Cfg, o Op, objs []int) (answer, error) {
+	in := Input{Cfg: c, Ops: []Op{o}, Objs: objs}
+	if isTop(o.K) {
+		in.T = "tc"
+	}
+	b, _ := json.Marshal(in)
 	cmd := exec.Command(os.Args[0], "--extra", "child")
 	cmd.Stdin = bytes.NewReader(append(b, '\n'))
 	var out bytes.Buffer
@@ -433,10 +462,11 @@ func freshProcess(c Cfg, o Op) (answer, error) {
 // ---------- one case ----------
 
 type procReq struct {
-	cfg Cfg
-	op  Op
-	ans *answer
-	err error
+	cfg  Cfg
+	op   Op
+	objs []int
+	ans  *answer
+	err  error
 }
 
 type caseRun struct {
@@ -741,6 +771,7 @@ func main() {
 		return
 	}
 	setup()
+	setupTc()
 	out := hlib.NewOut(opts.OutDir)
 	defer out.Close()
 
@@ -749,6 +780,12 @@ func main() {
 		if err := hlib.ReplayInput(opts.Replay, &in); err != nil {
 			fmt.Println("replay:", err)
 			os.Exit(2)
+		}
+		if in.T == "tc" {
+			cr := runTcCase(in, "replay", func(Op) bool { return true })
+			runProcs([]*caseRun{cr}, 4)
+			cr.emitTc(out)
+			return
 		}
 		cr := runCase(in, "replay", func(Op) bool { return true })
 		runProcs([]*caseRun{cr}, 4)
@@ -790,9 +827,15 @@ func main() {
 	stream(nGuard, "guarded-exact", 2, func(r *hlib.Rng) bool { return r.Chance(1, 4) })
 	stream(nValid, "guarded-validity", 1, func(r *hlib.Rng) bool { return r.Chance(1, 2) })
 	stream(nFree, "unrestricted", 0, func(r *hlib.Rng) bool { return r.Chance(1, 5) })
+	procLeft = procBudget
+	runs = append(runs, tcStreams(rng, opts.Thorough(), wantProc)...)
 	nproc := runProcs(runs, 4)
 	for _, cr := range runs {
-		cr.emit(out)
+		if cr.in.T == "tc" {
+			cr.emitTc(out)
+		} else {
+			cr.emit(out)
+		}
 	}
 	fmt.Printf("hC19: %d cases, %d fresh-process answers\n", out.Count(), nproc)
 }
@@ -815,7 +858,7 @@ func runProcs(runs []*caseRun, par int) int {
 		go func(p *procReq) {
 			defer wg.Done()
 			defer func() { <-sem }()
-			a, err := freshProcess(p.cfg, p.op)
+			a, err := freshProcess(p.cfg, p.op, p.objs)
 			if err != nil {
 				p.err = err
 				return
